@@ -185,6 +185,11 @@ impl AtomicBool {
     }
     fn written(&self, v: bool) {
         self.mirror.store(v, Ordering::Relaxed);
+        if v {
+            crate::ctl::lock_acquired(self as *const Self as usize);
+        } else {
+            crate::ctl::lock_released(self as *const Self as usize);
+        }
         let ws: Vec<_> = std::mem::take(&mut *self.waiters.lock().unwrap());
         for w in ws {
             w.unpark();
